@@ -417,8 +417,8 @@ end Bcder
 
 namespace Bcder
 /-- the same, over the stream layer: a source with grant policy `pol` whose request number `failAt`
-    fails; additionally returns the number of requests issued.  `none` if the script captures
-    (not modelled in the stream layer). -/
+    fails; additionally returns the number of requests issued (capture frames are part of the
+    stream layer; the `Option` is kept for the driver's sake and is always `some`). -/
 def runScriptS (pol : Policy) (failAt : Option Nat) (mode : Mode) (data : Bytes) (script : List Step) :
     Option (Res (Trace × Nat) × Nat) :=
   let fuel := data.length + 4
@@ -436,7 +436,5 @@ def runScriptS (pol : Policy) (failAt : Option Nat) (mode : Mode) (data : Bytes)
       | .ok (r, s') => go n (k r) s'
   let r := go (64 * (data.length + 64) * (script.length + 4)) p
     { data := data, granted := 0, reqs := 0, failAt := failAt, limit := none }
-  match r.1 with
-  | .error (.panic "capture is not modelled in the stream layer") => none
-  | _ => some r
+  some r
 end Bcder
